@@ -1,6 +1,7 @@
 mod interp;
 mod prog;
 mod rec;
+mod serial;
 
 use prog::Prog;
 use rec::{Recorder, Walker};
@@ -393,6 +394,11 @@ fn main() {
         Some("one") => cmd_one(&args),
         Some("enum") => cmd_enum(&args),
         Some("directed") => cmd_directed(&args),
+        Some("serial") => {
+            IN_EXEC.store(true, std::sync::atomic::Ordering::Relaxed);
+            let r = serial::run(arg(&args, "--vectors").expect("--vectors"));
+            println!("{r}");
+        }
         _ => {
             eprintln!("usage: vharness enum|one ...");
             std::process::exit(2);
